@@ -455,6 +455,20 @@ def rate_cases(ctx, first):
                 steps.append(dict(kind="rl", xff=xff, remote=remote, impl=_http(rng.choice(["GET", "HEAD", "POST"]), path, headers=h, remote=remote), model="(skip)"))
             steps.append(dict(kind="sleep", impl=dict(op="sleep", secs=rng.choice([0.05, 0.2, 1.25, 1.4])), model="(skip)"))
         cases.append(dict(id=first + i, conf=mkconf(ratelimit=L, warnings=rng.choice([[], ["w"]])), steps=steps, limit=L))
+    for j in range(3 if ctx.tier == "quick" else 24):
+        # one address uses up its budget, then many other addresses send a request each (more than any cache in the server
+        # is configured to hold: the page cache of the referrers API is made small, or left at its default of 1000), then the first
+        # address again - all within the same second
+        L = rng.choice([1, 2, 3])
+        pl = [2, 3, 0][j % 3]
+        crowd = (pl or 1000) + rng.randrange(2, 6)
+        rl = lambda remote: dict(kind="rl", xff="", remote=remote, impl=_http("GET", "/v2/", headers={}, remote=remote), model="(skip)")
+        steps = [rl("10.9.9.9:1") for _ in range(L + 1)]
+        steps += [rl("10.%d.%d.%d:1" % (1 + q // 60000, (q // 250) % 250, q % 250 + 1)) for q in range(crowd)]
+        steps += [rl("10.9.9.9:2") for _ in range(2)]
+        steps.append(dict(kind="sleep", impl=dict(op="sleep", secs=1.25), model="(skip)"))
+        steps += [rl("10.9.9.9:3") for _ in range(L + 1)]
+        cases.append(dict(id=first + n + j, conf=mkconf(ratelimit=L, warnings=[], pagelimit=pl), steps=steps, limit=L))
     return cases
 
 
